@@ -1,9 +1,11 @@
 #!/bin/sh
 # usage: tools/seedtest.sh <seed id, e.g. C01a> <property ids to check...>
-# applies seeded/<id>/patch.diff to /repo, runs the quick checks, undoes the patch.
+# applies seeded/<id>/patch.diff to /repo, runs the quick checks, undoes the patch and
+# restores the evidence files (evidence must come from runs on the unchanged tree).
 cd "$(dirname "$0")/.." || exit 2
 seed=$1; shift
 export GOFLAGS=-mod=mod GOPROXY=off GOSUMDB=off GOTOOLCHAIN=local
+bak=$(mktemp -d /tmp/evbak.XXXXXX); cp -a evidence/. "$bak"/
 git -C /repo apply "$PWD/seeded/$seed/patch.diff" || { echo "patch does not apply"; exit 2; }
 for p in "$@"; do
   echo "--- $seed / $p"
@@ -11,4 +13,5 @@ for p in "$@"; do
 done
 git -C /repo checkout -- . ; git -C /repo clean -fdq
 git -C /repo status --short
+rm -rf evidence; mkdir evidence; cp -a "$bak"/. evidence/; rm -rf "$bak"
 python3 check.py setup >/dev/null 2>&1
